@@ -1344,9 +1344,29 @@ def r20_ownership_edges(facts):
                     for p in mir["field_places"]:
                         if p["ctx"] in MUTATING and any(isinstance(e, dict) and e.get("adt") == d and e["field"] == f["name"] for e in p["proj"]):
                             ws.append((b, p))
+                WHOLE_REPLACERS = ("core::option::Option::<T>::replace", "core::option::Option::<T>::insert", "core::option::Option::<T>::take",
+                                   "core::mem::replace", "core::mem::take", "core::mem::swap")
                 for b, p in ws:
                     last = p["proj"][-1]
                     whole = isinstance(last, dict) and last.get("field") == f["name"]
+                    if whole and p["ctx"] == "write:Borrow":
+                        # `self.output.replace(v)` / `mem::replace(&mut self.output, v)`: the mutable borrow is handed to a function
+                        # that replaces the whole slot (the previous value is returned and dropped by the caller)
+                        n_mut = n_repl = 0
+                        for nb in facts.nested(b) if b["kind"] != "Closure" else [b]:
+                            for x in walk(facts.root(nb)):
+                                if x.get("k") == "Borrow" and x.get("bk") == "mut":
+                                    r_, ch = field_chain(x["e"])
+                                    if ch and ch[-1] == f["name"]:
+                                        n_mut += 1
+                                if x.get("k") == "Call" and callee(x) in WHOLE_REPLACERS and x["args"]:
+                                    r_, ch = field_chain(x["args"][0])
+                                    if ch and ch[-1] == f["name"]:
+                                        n_repl += 1
+                        if n_mut and n_mut == n_repl:
+                            c.ok("retained-writer:%s.%s@%s" % (d, f["name"], b["def"]), "%s:%d" % (F.rel(b["file"]), p["sp"][0]),
+                                 "the slot is replaced as a whole through Option::replace / mem::replace (the previous value is dropped)")
+                            continue
                     c.check(whole and p["ctx"] == "write:Store", "retained-writer:%s.%s@%s" % (d, f["name"], b["def"]),
                             "%s:%d" % (F.rel(b["file"]), p["sp"][0]),
                             "whole-slot assignment (the previous value is dropped)",
